@@ -24,8 +24,30 @@ def main():
     if shuffle_seed:
         random.Random(shuffle_seed * 7919 + 1).shuffle(order)
     out = [None] * len(cases)
+    # the file system the process sees is part of "the process it runs in": each child runs in its own scratch
+    # working directory in which the model file named by the configuration does not exist (mode 0), is a regular
+    # file (mode 1) or is a symbolic link to a differently named file (mode 2, Bazel/Nix style sandboxes)
+    cwd_mode = int(os.environ.get('VERIF_CHILD_CWD', '0'))
+    import tempfile
+    scratch = tempfile.mkdtemp(prefix='verif-c08-cwd-')
+    os.chdir(scratch)
     for idx in order:
         c = json.loads(json.dumps(cases[idx]))
+        fn = c['cfg'].get('filename') or ''
+        if cwd_mode and fn and not os.path.isabs(fn) and not fn.endswith('/'):
+            try:
+                if os.path.dirname(fn):
+                    os.makedirs(os.path.dirname(fn), exist_ok=True)
+                if os.path.lexists(fn):
+                    os.unlink(fn)
+                if cwd_mode == 1:
+                    open(fn, 'w').write('x')
+                else:
+                    tgt = os.path.join(scratch, 'zz_target_%d.dzn' % idx)
+                    open(tgt, 'w').write('x')
+                    os.symlink(tgt, fn)
+            except OSError:
+                pass
         orders = {}
         for k, v in c['cfg']['ports'].items():
             if 'names' in v:
@@ -39,6 +61,9 @@ def main():
                                   for f in res.files], 'orders': orders}
         else:
             out[idx] = {'err': r['err'], 'orders': orders}
+    os.chdir('/')
+    import shutil
+    shutil.rmtree(scratch, ignore_errors=True)
     json.dump(out, sys.stdout)
 
 
